@@ -374,6 +374,7 @@ fn main() {
         "cfgeq" => cfgeq::cmd(rest),
         "crash" => crash::cmd_crash(rest),
         "loop-run" => looprun::cmd_loop_run(rest),
+        "tick-budget" => looprun::cmd_tick_budget(rest),
         "paired" => paired::cmd_paired(rest),
         "reload" => reload::cmd(rest),
         "reload-edges" => reload::cmd_edges(rest),
